@@ -166,6 +166,23 @@ def handle (line : String) : String :=
        | .error e => "err " ++ (match e with
           | .nonPositiveHeight => "height" | .overlap => "overlap" | .multipleRodded => "multiple" | .noRodded => "norods"))
     | _, _ => "bad-op"
+  | "regionsf" :: rest =>
+    -- regionsf L | lo hi vf known(0/1) ...   (AcceptRegions.checkRegionsFull: attributes first, then the bounds)
+    let (hd, ps) := splitBar rest
+    let rec quads : List Float → Option (List ((Float × Float) × (Float × Bool)))
+      | [] => some []
+      | a :: b :: c :: d :: t => (quads t).map (((a, b), (c, d != 0.0)) :: ·)
+      | _ => none
+    match floatList hd, (floatList ps).bind quads with
+    | some [len], some qs =>
+      let regs := qs.map (·.1)
+      (match AcceptRegions.checkRegionsFull len regs (qs.map (·.2)) with
+       | .ok () => let b := AcceptRegions.roddedBnds len regs; "ok " ++ showFloats [b.1, b.2]
+       | .error e => "err " ++ (match e with
+          | .noCoolant => "nocoolant" | .unknownModel => "model"
+          | .bounds .nonPositiveHeight => "height" | .bounds .overlap => "overlap"
+          | .bounds .multipleRodded => "multiple" | .bounds .noRodded => "norods"))
+    | _, _ => "bad-op"
   | "prows" :: rest =>
     -- prows nItems nTerms | zlo idx c_1 .. c_nTerms  zlo idx c_1 ..   (PowerRows.table; rows in file order)
     let (hd, body) := splitBar rest
